@@ -39,6 +39,18 @@ ALL_CLAUSES = {
     "sys.final_mode": "C12",
     "sys.no_overwrite": "C12",
 }
+
+
+def clauses_of(prop):
+    """the clauses a property owns, as the `clauses` argument of run_suite_traces / replay"""
+    return {c: o for c, o in ALL_CLAUSES.items() if o == prop}
+
+
+def is_case(case):
+    """a replay case written by this module (as opposed to the calling property's own cases)"""
+    return isinstance(case, dict) and case.get("kind") in ("suite", "driver") and str(case.get("clause", "")).startswith("sys.")
+
+
 CLAUSE_BITS = ["sys.passive_no_effect", "sys.inside_outdir", "sys.no_overwrite", "sys.write_once", "sys.reported_eq_written",
                "sys.final_mode", "sys.listed_eq_written"]
 ENTRY_POINTS = {"main": "nunavut.cli.main", "run": "nunavut.cli.runners.ArgparseRunner.run",
@@ -531,11 +543,11 @@ def _validate(ctx, records):
     return tlc.validate_traces(ctx, "NnvgRunTrace", records, batch=batch, timeout=1500)
 
 
-def selftests(ctx, runs, records):
-    """binding: corrupted records must be rejected with the right clause"""
+def selftests(ctx, runs, records, rejects=()):
+    """binding: corrupted records must be rejected with the right clause (the records corrupted are ones the T-layer accepted)"""
     def pick(pred):
         for i, r in enumerate(records):
-            if pred(runs[i], r):
+            if i not in rejects and pred(runs[i], r):
                 return json.loads(json.dumps(r))
         return None
 
@@ -589,8 +601,8 @@ def selftests(ctx, runs, records):
         r["ovw"] = False
         r["rep"] = r["rep"][1:]
         muts.append(("several clauses at once", r, "sys.inside_outdir"))
-    if not muts:
-        raise MachineryFailure("no record suitable for the binding self-tests")
+    if len(muts) < 2:
+        raise MachineryFailure("no accepted record suitable for the binding self-tests")
     for i, (_n, rec, _c) in enumerate(muts):
         rec["id"] = i
     rej = _validate_quiet(ctx, [m[1] for m in muts])
@@ -679,7 +691,7 @@ def run_suite_traces(ctx, clauses=None, suite=True, models=True):
     phases["trace validation"] = round(time.time() - t, 1)
     judge(ctx, clauses, runs, records, rejects, scen_by_sid)
     t = time.time()
-    selftests(ctx, runs, records)
+    selftests(ctx, runs, records, rejects)
     phases["binding self-tests"] = round(time.time() - t, 1)
 
     # bookkeeping
@@ -698,7 +710,7 @@ def run_suite_traces(ctx, clauses=None, suite=True, models=True):
         ctx.not_exercised("entry point %s.%s does not exist in this tree" % (mod, e))
     for tag, name in ENTRY_POINTS.items():
         if tag not in seen_eps:
-            ctx.not_exercised("no recorded run has %s as its outermost entry point" % name)
+            ctx.not_exercised("no recorded run has %s as its OUTERMOST entry point (calls nested in another entry point belong to that run)" % name)
     nounk = sum(1 for r in records if not r["hasod"])
     if nounk:
         ctx.not_exercised("%d suite runs over mock namespaces have no output directory: sys.inside_outdir / reported / final_mode not evaluated there" % nounk)
